@@ -6,6 +6,7 @@ import (
 	"go/ast"
 	"go/token"
 	"go/types"
+	"strings"
 )
 
 func init() {
@@ -21,6 +22,9 @@ func init() {
 			{ID: "C06.R3", Doc: "Merge: result = clone of the receiver; pairs Set into it come from iterating the argument", Run: c06Merge},
 			{ID: "C06.R4", Doc: "Pluck: unconditional result.Set(key, self.Get(key)) for every requested key", Run: c06Pluck},
 			{ID: "C06.R5", Doc: "Keys/Values/Contains range the receiver's spine unfiltered, once per field", Run: c06Views},
+			{ID: "C06.R9", Doc: "Merge and Pluck iterate with ForEach, which visits every field exactly once (= C14 on (*object).ForEach)", Run: func(c *Ctx) {
+				c.R.Floor("C06.R9", runAs(c, "C06.R9", c14Run, func(o *Obligation) bool { return strings.Contains(o.Construct, "(*object).ForEach/") }), 2)
+			}},
 			{ID: "C06.R8", Doc: "Merge clones its receiver through copy(): the clone shares no container with the receiver (= C08.R2 DEEP and coverage)", Run: func(c *Ctx) { c.R.Floor("C06.R8", runAs(c, "C06.R8", c08R2, nil), 2) }},
 			{ID: "C06.R7", Doc: "PURE: observers and deriving operations write nothing pre-existing", Run: func(c *Ctx) {
 				names := []string{"Get", "GetObject", "GetList", "GetString", "GetBool", "GetInt", "GetFloat", "TypeOf", "KeyExists", "Count", "Empty", "Keys", "Values", "Dict", "Contains", "KeyOf", "Merge", "Pluck"}
